@@ -10,7 +10,7 @@ from .. import blackbox as bb
 from ..report import Result
 
 NEEDS = ("dev", "rel")
-BEHAVIOURS = ["connect-close", "garbage", "plain-http", "tls-no-alpn", "tls-foreign-alpn", "clienthello-then-silence", "50-stalled"]
+BEHAVIOURS = ["connect-close", "garbage", "plain-http", "tls-no-alpn", "tls-foreign-alpn", "clienthello-then-silence", "clienthello-then-close", "50-stalled"]
 DOMAIN = "example.org"
 DIGEST = hashlib.sha256(b"c17").digest()
 
@@ -60,6 +60,17 @@ def apply(t, b, keep):
         s = t.connect_raw()
         s.sendall(client_hello_bytes())
         keep.append(s)
+    elif b == "clienthello-then-close":
+        s = t.connect_raw()
+        s.sendall(client_hello_bytes())
+        time.sleep(0.02)
+        s.shutdown(socket.SHUT_WR)
+        try:
+            s.settimeout(0.3)
+            s.recv(4096)
+        except OSError:
+            pass
+        s.close()
     elif b == "50-stalled":
         for _ in range(50):
             keep.append(t.connect_raw())
@@ -92,6 +103,16 @@ def run_history(ctx, hist, listen=None):
         time.sleep(0.02)
         if not t.alive():
             out.append(("alive", "tacd process alive after the final handshake", "exited with %s" % t.p.returncode))
+        # the abandoned and stalled connections are closed now: that must not hurt either
+        for s in keep:
+            try:
+                s.close()
+            except OSError:
+                pass
+        if keep:
+            time.sleep(0.05)
+            if not t.alive():
+                out.append(("alive", "tacd survives the abandoned connections being closed", "exited with %s" % t.p.returncode))
     finally:
         for s in keep:
             try:
@@ -108,7 +129,7 @@ def run(ctx):
     res = Result("model_checking")
     depth = 2 if ctx.quick else 4
     res.rule = ("E5: every ordered selection (with repetition) of 0..%d behaviours from the catalogue {connect+close, garbage bytes, plain HTTP, TLS without ALPN, TLS with foreign "
-                "ALPN, ClientHello then silence (kept open), 50 concurrent stalled connections (kept open)} against a fresh release tacd (panic=abort), followed by a valid "
+                "ALPN, ClientHello then silence (kept open, closed at the end), ClientHello then FIN, 50 concurrent stalled connections (kept open)} against a fresh release tacd (panic=abort), followed by a valid "
                 "acme-tls/1 handshake checked as in C16. A state is the behaviour history; a transition is one connection behaviour.") % depth
     hists = []
     for n in range(depth + 1):
@@ -131,7 +152,7 @@ def run(ctx):
                 res.add_sample({"listener": listen, "history": h, "result": "served" if not viols else viols[0][2]})
             for (oracle, ex_, ob) in viols:
                 first = h[0] if h else "none"
-                killer = next((b for b in h if b in ("garbage", "plain-http", "tls-no-alpn", "tls-foreign-alpn", "connect-close")), first)
+                killer = next((b for b in h if b in ("garbage", "plain-http", "tls-no-alpn", "tls-foreign-alpn", "connect-close", "clienthello-then-close")), first)
                 res.violation(oracle, "C17|%s|%s|first-failed-connection=%s" % (oracle, listen, killer), ex_, "%s after history %s" % (ob, h), replay={"history": h, "listen": listen})
     res.extra["depth"] = depth
     res.extra["histories"] = len(hists) + len(uh)
@@ -146,6 +167,6 @@ def replay(ctx, rp):
     out = []
     for (o, e, b) in viols:
         h = r["history"]
-        killer = next((x for x in h if x in ("garbage", "plain-http", "tls-no-alpn", "tls-foreign-alpn", "connect-close")), h[0] if h else "none")
+        killer = next((x for x in h if x in ("garbage", "plain-http", "tls-no-alpn", "tls-foreign-alpn", "connect-close", "clienthello-then-close")), h[0] if h else "none")
         out.append({"oracle": o, "signature": "C17|%s|%s|first-failed-connection=%s" % (o, r.get("listen") or "tcp", killer), "expected": e, "observed": b})
     return out
